@@ -116,7 +116,7 @@ def pairs(st):
     for kit, name, K, role, pat in catalog(st):
         for A in structured_mro(st, K)[1:]:
             try:
-                if A.structure() != pat and not st.mod("moclo._utils").isabstract(A):
+                if A.structure() != pat and not is_abstract(A):
                     out.append((kit, name, A.__name__, A.__module__.split(".")[-1]))
             except Exception:
                 pass
